@@ -120,7 +120,12 @@ def run(unit_name, text, table, workdir, rlimit=None, extra=(), count_obligation
         rec = {'message': msg, 'line': line, 'clause': clause, 'sites': sites,
                'resource': any(k.lower() in msg.lower() for k in RESOURCE),
                'rendered': (d.get('rendered') or '')[:1500]}
-        if ent is None or ent['kind'] not in ('fn', 'canary', 'assumed', 'traitfn'):
+        rec['code'] = (d.get('code') or {}).get('code') if isinstance(d.get('code'), dict) else d.get('code')
+        if rec['code'] or not any(k in msg for k in SEMANTIC + RESOURCE) or msg.startswith('function body check'):
+            # rustc / Verus front-end rejection or an unclassified message: never a verdict
+            if not msg.startswith('function body check'):
+                hard.append(rec)
+        elif ent is None or ent['kind'] not in ('fn', 'canary', 'assumed', 'traitfn'):
             hard.append(rec)
         else:
             res.fns[ent['label']].errors.append(rec)
